@@ -91,6 +91,7 @@ type Exec struct {
 	monitor    func()
 	nextID     int
 	optBuf     []option
+	inMon      bool
 	locals     map[interface{}]interface{}
 	delayBound bool
 	held       map[interface{}]func()
@@ -348,8 +349,11 @@ func (x *Exec) switchFrom(self *Thread, finished bool) {
 		return
 	}
 	x.steps++
-	if x.monitor != nil {
+	if x.monitor != nil && !x.inMon {
+		// the monitor may call instrumented code: its scheduling points are ignored
+		x.inMon = true
 		x.monitor()
+		x.inMon = false
 	}
 	if x.steps > x.maxSteps {
 		x.res.StepLimit = true
@@ -477,6 +481,9 @@ func Point(op *Op) bool {
 	t := x.cur
 	if t == nil {
 		return false
+	}
+	if x.inMon {
+		return true
 	}
 	if paranoid {
 		checkGoroutine(x, t)
